@@ -640,7 +640,7 @@ TRUSTED = ["Coq 8.16.1 kernel incl. vm_compute (no native_compute)",
            "function pool (FN_JS/FN2_JS) vs Model.apply/apply2 — itself exercised by the std.map/foldl cases",
            "IEEE division of std.avg done by Python on the exact quotient the model returns"]
 ASSUMPTIONS = ["impl-model transliterates sets.rs / sort.rs / arrays.rs loops; tie = differential run on every check",
-               "numbers in cases are small integers far apart (jrsonnet's epsilon equality is C09's finding)",
+               "numbers in cases are small integers (number equality / comparison semantics are C09's)",
                "values are fully evaluated (no erroring array elements): laziness is C03's",
                "calls whose outcome the documentation leaves open (non-set arguments of set functions, key "
                "functions undefined on an element, sums over strings, null from an array flatMap function) are "
